@@ -4,14 +4,16 @@ import itertools
 from common import proto
 from common.framework import Failure, ImplError, Stream
 from props import _log
-from props._log import ALPHABET, NUM, OWN_ERROR, is_call, parse_call
+from props._log import ALPHABET, BAD_VERB, NUM, OWN_ERROR, WRAP_ERROR, baseline_key, is_call, own_error, parse_call
 
 ID = 'C20'
 LEAN_MODULES = ['Proofs.C20']
 REQUIRED = ['C20.call_restores', 'C20.call_state_unchanged', 'C20.call_transparent',
             'C20.call_before_setup_harmless', 'C20.result_indep_of_log', 'C20.override_in_force',
             'C20.run_restores', 'C20.run_calls_irrelevant', 'C20.run_results_indep',
-            'C20.raise_leaks_level_current', 'C20.presetup_keyerror_current']
+            'C20.raise_leaks_level_current', 'C20.presetup_keyerror_current',
+            'C20.bad_verbose_level_untouched', 'C20.bad_verbose_before_setup_ignored', 'C20.bad_verbose_after_setup_rejected',
+            'C20.bad_verbose_depends_on_setup', 'C20.wrapper_error_only_if_undocumented']
 TRUSTED = [
     'the body of a decorated sift function is abstracted to its outcome (returns | raises): that it never touches '
     'the logger state and that its value does not depend on it is decided by the instance check only '
@@ -19,16 +21,28 @@ TRUSTED = [
     'python `logging` (handler levels, logging.disable, dictConfig) is the oracle behind set_up/set_level/get_level; '
     'the model keeps only the console handler level and the disable switch',
     'os.fork gives every history a process whose logger state is exactly that of the executed prefix',
+    'the theorems result_indep_of_log / run_results_indep are definitional with respect to the BODY (its outcome is a model input); '
+    'what they prove is the transparency of the wrapper (call_transparent). Bitwise independence of the real results from the '
+    'logger state is the instance check of this file, not a theorem',
+    'sift_logger reads its inputs eagerly (args[0].shape is formatted whatever the level): sift(X=x) raises IndexError in EVERY '
+    'logger state. State-independent, hence not a C20 violation; call mode k asserts that its outcome (error kind or digest) '
+    'equals the outcome under an untouched logger, in every state and for every verbosity',
 ]
 ASSUMPTIONS = [
     'levels are the four documented names (CRITICAL, WARNING, INFO, DEBUG); verbose is passed by keyword as documented',
+    'OUTSIDE the property (its quantifier is verbose in {None, CRITICAL, WARNING, INFO, DEBUG}): a verbosity that is not a level '
+    'name of logging (verbose="debug", 10, "nonsense") is silently ignored before set_up and rejected by the wrapper (TypeError / '
+    'AttributeError from set_level, before the body runs) once a console handler exists, so THERE the result depends on the '
+    'logger state (C20.bad_verbose_depends_on_setup). Modelled (Op.callBad) and compared step by step; the instance check applies '
+    'only the level clause to such calls (level restored - C20.bad_verbose_level_untouched), no claim about their result',
     'console visibility is observed through the records "STARTED: <sift>" (INFO) and "Input data size" (DEBUG) '
     'that sift_logger emits at the start of every decorated call',
 ]
 RULE = ('exhaustive: every history of length D (quick 3, thorough 4; all shorter ones are its prefixes) over the 21 operations '
         '%s from both the never-set-up and the set-up state, each root-to-leaf history ending in its own forked process; '
         'random: histories of length 4..30 in one fresh forked child each over the same operations plus set_up with a log file, '
-        'verbose omitted, non-convergence as the raising call, and the decorated variants mask_sift / ensemble_sift / '
+        'verbose omitted, non-convergence as the raising call, the signal passed by keyword (sift(X=x)), undocumented verbosity '
+        'values ("debug", 10, "nonsense"), and the decorated variants mask_sift / ensemble_sift / '
         'complete_ensemble_sift (seeded). Compared per step: get_level(), error kind, whether INFO/DEBUG records of the call '
         'reached the console, output digest of every returning call. Non-trivial: the history contains a call with an '
         'explicit verbosity made after set_up under a different standing level, or a raising call with an explicit verbosity.'
@@ -39,9 +53,9 @@ RULE = ('exhaustive: every history of length D (quick 3, thorough 4; all shorter
 # correspondence (model vs implementation) and instance check on one complete history
 # --------------------------------------------------------------------------------------------
 
-def model_op(start, toks):
+def model_op(start, toks, baseline=None):
     return proto.op('LOGRUN', {'start': int(start), 'variant': 'fixed',
-                               'ops': ','.join(_log.model_token(t) for t in toks) or '-'})
+                               'ops': ','.join(_log.model_token(t, baseline) for t in toks) or '-'})
 
 
 def compare_history(start, toks, recs, baseline, r):
@@ -55,14 +69,19 @@ def compare_history(start, toks, recs, baseline, r):
         where = 'start=%d history=%s step %d (%s)' % (start, ','.join(toks), i, tok)
         if lvl != mlev[i]:
             return '%s: get_level() impl=%s model=%s' % (where, lvl, mlev[i])
-        exp_err = {0: None, 1: None, 2: OWN_ERROR.get(parse_call(tok)[1]) if is_call(tok) else '?', 3: 'KeyError'}[mres[i]]
+        exp_err = {0: None, 1: None, 2: own_error(tok, baseline) if is_call(tok) else '?', 3: 'KeyError',
+                   4: WRAP_ERROR.get(parse_call(tok)[0]) if is_call(tok) else '?'}[mres[i]]
         if err != exp_err:
             return '%s: error impl=%s model=%s' % (where, err, exp_err)
         if is_call(tok):
-            if (info, dbg) != (minfo[i], mdbg[i]):
+            if parse_call(tok)[1] == 'k' and mres[i] == 2:
+                # sift_logger raised between its INFO record and its DEBUG record: only the former is comparable
+                if info != minfo[i]:
+                    return '%s: console record (info) impl=%s model=%s' % (where, info, minfo[i])
+            elif (info, dbg) != (minfo[i], mdbg[i]):
                 return '%s: console records (info,debug) impl=%s model=%s' % (where, (info, dbg), (minfo[i], mdbg[i]))
-            if mres[i] == 1 and dig != baseline.get(parse_call(tok)[2]):
-                return '%s: output digest %s differs from the reference %s' % (where, dig, baseline.get(parse_call(tok)[2]))
+            if mres[i] == 1 and dig != baseline.get(baseline_key(tok)):
+                return '%s: output digest %s differs from the reference %s' % (where, dig, baseline.get(baseline_key(tok)))
     return None
 
 
@@ -90,7 +109,16 @@ def check_history(start, toks, recs, lvl0, baseline):
             if lvl != before:
                 fail('level-not-restored:%s%s' % ('returns' if mode == 'r' else 'raises', pre),
                      'step %d (%s): console level %s before the call, %s after' % (i, tok, before, lvl))
-            if mode == 'r':
+            if v in BAD_VERB:
+                before = lvl
+                continue        # a verbosity outside the documented values: only the level clause applies (see ASSUMPTIONS)
+            if mode == 'k':
+                # logging code reading the inputs: whatever the call does, it must do the same in every logger state
+                got = dig if err is None else 'error:' + str(err)
+                if got != baseline.get('k'):
+                    fail('result-depends-on-logger:keyword-signal', 'step %d (%s): %s, under an untouched logger %s'
+                         % (i, tok, got, baseline.get('k')))
+            elif mode == 'r':
                 if err is not None:
                     fail('call-fails:%s%s' % (err, pre), 'step %d (%s) raised %s' % (i, tok, err))
                 elif dig != baseline.get(fn):
@@ -104,6 +132,8 @@ def check_history(start, toks, recs, lvl0, baseline):
             else:
                 eff = NUM[v] if v in NUM else before
                 exp = (int(eff <= 20), int(eff <= 10))
+            if mode == 'k' and err is not None:
+                exp, dbg = (exp[0], 0), 0          # sift_logger raised before its DEBUG record
             if (info, dbg) != exp:
                 kind = 'console-output-while-silenced' if (before == -1 or disabled) else \
                     ('override-not-in-force' if v in NUM else 'standing-level-not-in-force')
@@ -161,7 +191,7 @@ class _HistStream(Stream):
     def ops(self, case, out):
         if isinstance(out, ImplError):
             return []
-        return [model_op(case['start'], toks) for toks, _ in _log.leaves(out, case['prefix'])]
+        return [model_op(case['start'], toks, out['baseline']) for toks, _ in _log.leaves(out, case['prefix'])]
 
     def compare(self, case, out, results):
         if isinstance(out, ImplError):
@@ -217,7 +247,8 @@ class HistExhaustive(_HistStream):
                 yield dict(case, prefix=case['prefix'][:i] + case['prefix'][i + 1:])
 
 
-EXTRA = (['su:E', 'sl:E', 'sl:E', 'c:E:r', 'c:E:x'] + ['suf:' + l for l in _log.VERB] + ['c:O:r', 'c:O:x', 'c:O:y'] + ['c:%s:y' % v for v in _log.VERB])
+EXTRA = (['su:E', 'sl:E', 'sl:E', 'c:E:r', 'c:E:x'] + ['suf:' + l for l in _log.VERB] + ['c:O:r', 'c:O:x', 'c:O:y'] + ['c:%s:y' % v for v in _log.VERB] +
+         ['c:B:r', 'c:B:x', 'c:T:r', 'c:U:r', 'c:U:x', 'c:B:k'] + ['c:%s:k' % v for v in ('O', 'N', 'D', 'W')])
 SLOW = (['c:%s:r:%s' % (v, f) for v in ('N', 'O', 'W', 'D') for f in 'meca'] + ['c:D:x:m', 'c:I:x:e', 'c:C:x:c', 'c:D:y:m'] +
         ['c:%s:r:a' % v for v in ('N', 'O', 'C', 'I', 'D')])
 
@@ -243,6 +274,14 @@ class HistRandom(_HistStream):
             # seeded change C20-4: the level in force before the call need not be one of the four documented names
             {'start': 0, 'prefix': ['su:E', 'c:D:r', 'c:I:x', 'sl:W', 'c:E:r', 'sl:E', 'c:C:x', 'c:O:r'], 'depth': 0, 'sig': 2},
             {'start': 1, 'prefix': ['sl:E', 'c:D:r', 'c:W:x', 'c:N:r'], 'depth': 0, 'sig': 0},
+            # review B: the signal by keyword (sift_logger raises IndexError) must behave the same in EVERY state and for every
+            # verbosity, and must not leak the temporary level
+            {'start': 0, 'prefix': ['c:O:k', 'c:D:k', 'su:W', 'c:O:k', 'c:D:k', 'c:N:k', 'dis', 'c:I:k', 'en', 'sl:D', 'c:C:k', 'suf:I', 'c:W:k'],
+             'depth': 0, 'sig': 1},
+            # review B: undocumented verbosity values: ignored before set_up, rejected by the wrapper after; level never moves
+            {'start': 0, 'prefix': ['c:B:r', 'c:T:x', 'c:U:r', 'su:W', 'c:B:r', 'c:T:r', 'c:U:x', 'c:B:k', 'dis', 'c:B:r', 'en', 'sl:D',
+                                    'c:U:r', 'c:D:r'], 'depth': 0, 'sig': 2},
+            {'start': 1, 'prefix': ['c:B:r', 'c:B:x', 'sl:C', 'c:T:r', 'c:N:r'], 'depth': 0, 'sig': 0},
         ]
 
     def generate(self, rng, tier):
@@ -270,6 +309,10 @@ class HistRandom(_HistStream):
                 t.append(lab)
         if 'dis' in toks:
             t.append('disable')
+        if any(is_call(x) and parse_call(x)[0] in BAD_VERB for x in toks):
+            t.append('undocumented-verbosity')
+        if any(is_call(x) and parse_call(x)[1] == 'k' for x in toks):
+            t.append('signal-by-keyword')
         return t
 
     def nontrivial(self, case, out):
